@@ -50,9 +50,14 @@ def build():
     u.add(u.item('src/sender/uplink.rs', 'struct', 'UplinkPacket', post=lambda t: t.replace('ConnectionId', 'u64')))
     u.add(STUBS)
     SIG = [('instant_tx: &InstantForwarder', 'instant_tx: &InstantFwd', 1)]
+    REACH = '(packet.bytes@.len() != 0 && !no_link_has_id(old(connections)@, packet.conn_id)) ==> parsed_g'
+    REACH_TAG = 'C09.drain.handle_uplink_packet.a_datagram_of_a_known_uplink_always_reaches_the_uplink_parser'
     u.add(u.fn(PH, 'handle_uplink_packet', sub='drain', erase_async=True,
                pre_rewrite=[(lambda t: rules.r12_position(t)[0], None, 1)],
-               post_rewrite=SIG + [('super::uplink_recv::process_uplink_packet(', 'process_uplink_packet(', 1), ('io.socket.send(&pkt)', 'io_send_258(io, &pkt)', 1)],
+               post_rewrite=SIG + [('super::uplink_recv::process_uplink_packet(', 'process_uplink_packet(', 1), ('io.socket.send(&pkt)', 'io_send_258(io, &pkt)', 1),
+                                   # every statement-position `return;` (also one a change adds) must satisfy the exit condition
+                                   (re.compile(r'(?m)^(\s*)return;'), r'\1{ proof { assert(%s);  // @ob %s @exit\n\1} return; }' % (REACH, REACH_TAG), None),
+                                   (re.compile(r'(\n\s*)match process_uplink_packet\('), r'\1proof { parsed_g = true; }\1match process_uplink_packet(', 1)],
                requires=['links_wf(old(connections)@)', 'distinct_conn_ids(old(connections)@)', 'probes_ok(old(connections)@)'],
                ensures=[
                    'links_wf(final(connections)@)', 'distinct_conn_ids(final(connections)@)', 'probes_ok(final(connections)@)',
@@ -66,7 +71,9 @@ def build():
                    ens=[C('C09.drain.handle_uplink_packet.datagram_is_processed_on_the_link_it_arrived_on',
                           '''match idx_pos { Some(i) => i < connections.len() && connections[i as int].conn_id == packet.conn_id, None => no_link_has_id(connections@, packet.conn_id) }''')],
                    dec='connections.len() - c_nx')},
-               splices=[('Ok(mut incoming) => {', '''let ghost inc0 = incoming;
+               splices=[('@BEGIN', '    let ghost mut parsed_g: bool = false;', 'after'),
+                        ('@END', '    proof { assert(%s);  // @ob %s @exit\n    }' % (REACH, REACH_TAG), 'before'),
+                        ('Ok(mut incoming) => {', '''let ghost inc0 = incoming;
                 proof {
                     assert(ids_kept(old(connections)@, connections@)) by {
                         assert forall|j: int| 0 <= j < connections.len() implies (#[trigger] connections[j]).conn_id == old(connections)[j].conn_id by {
